@@ -15,8 +15,8 @@ MANAGERS = ["sums", "contents"]
 
 def evaluate(case):
     manager, ops = case["manager"], case["ops"]
-    probs, stats = binmodel.run_ops(manager, ops)
-    labels = [f"manager={manager}"] + [f"op:{k}" for k in stats["ops"]]
+    probs, stats = binmodel.run_ops(manager, ops, case.get("items", "str"))
+    labels = [f"manager={manager}", f"items={case.get('items', 'str')}"] + [f"op:{k}" for k in stats["ops"]]
     if stats["copy_then_mutate"]:
         labels.append("copy-then-mutation-of-either-side")
     if stats["sort_after_tie"]:
@@ -52,7 +52,7 @@ def random_cases(draw):
     manager = draw(st.sampled_from(MANAGERS))
     prefix = [["new", draw(st.integers(1, 4))]]
     ops = draw(st.lists(op_strategy(), min_size=3, max_size=40))
-    return {"manager": manager, "ops": prefix + ops}
+    return {"manager": manager, "ops": prefix + ops, "items": draw(st.sampled_from(["str", "str", "int", "tuple"]))}
 
 
 ALPHABET = [
@@ -75,10 +75,12 @@ def exhaustive_cases(tier):
     """Every sequence of <= 3 (quick) / <= 4 (thorough) actions of a fixed alphabet of 18 concrete actions after a fixed
     two-step prefix, both managers."""
     depth = 4 if tier == "thorough" else 3
+    idx = 0
     for manager in MANAGERS:
         for n in range(1, depth + 1):
             for seq in itertools.product(ALPHABET, repeat=n):
-                yield {"manager": manager, "ops": PREFIX + [list(o) for o in seq]}
+                idx += 1
+                yield {"manager": manager, "ops": PREFIX + [list(o) for o in seq], "items": binmodel.ITEM_KINDS[idx % 3]}
 
 
 def stateful_leg(n, seed, rec, tier):
@@ -96,9 +98,10 @@ def stateful_leg(n, seed, rec, tier):
             self.manager = None
             self.ops = []
 
-        @initialize(manager=st.sampled_from(MANAGERS), n=st.integers(1, 4))
-        def start(self, manager, n):
+        @initialize(manager=st.sampled_from(MANAGERS), n=st.integers(1, 4), items=st.sampled_from(binmodel.ITEM_KINDS))
+        def start(self, manager, n, items):
             self.manager = manager
+            self.items = items
             self.ops = [["new", n]]
 
         @rule(op=op_strategy())
@@ -109,14 +112,14 @@ def stateful_leg(n, seed, rec, tier):
         def agrees_with_model(self):
             if self.manager is None:
                 return
-            probs, _ = binmodel.run_ops(self.manager, self.ops)
+            probs, _ = binmodel.run_ops(self.manager, self.ops, self.items)
             if probs:
-                found["case"] = {"manager": self.manager, "ops": [list(o) for o in self.ops]}
+                found["case"] = {"manager": self.manager, "ops": [list(o) for o in self.ops], "items": self.items}
                 raise AssertionError(probs[0][0])
 
         def teardown(self):
             if self.manager is not None and "case" not in found:
-                rec.run({"manager": self.manager, "ops": [list(o) for o in self.ops]})
+                rec.run({"manager": self.manager, "ops": [list(o) for o in self.ops], "items": self.items})
 
     machine = hypothesis.seed(seed)(BinsMachine)
     sett = settings(max_examples=max(1, n), stateful_step_count=30, deadline=None, database=None, derandomize=False,
@@ -132,6 +135,8 @@ def stateful_leg(n, seed, rec, tier):
 
 def valid(case):
     if case.get("manager") not in MANAGERS or not isinstance(case.get("ops"), list) or not case["ops"]:
+        return False
+    if case.get("items", "str") not in binmodel.ITEM_KINDS:
         return False
     arity = {"new": 2, "add": 4, "copy": 2, "sort": 2, "add_empty": 3, "remove": 3, "concat": 3, "combine": 5}
     for op in case["ops"]:
@@ -184,4 +189,4 @@ def main():
         "hand-over discipline of the statement: an array passed to add_empty_bins / remove_bins / concatenate_bins is afterwards used "
         "only through the returned array; concatenate and combine are never applied to an array and itself",
         "which of several bins with equal sums comes first after sorting is not prescribed",
-        "items are strings named after their value (0..9)"])
+        "items are names with a value table, plain numbers that are their own value, or (name, value) records read through a value function; values 0..9"])
